@@ -1352,8 +1352,8 @@ fn local_bounds(prog: &Program, ex: &Execution, l: u32) -> Option<(u64, u64, u64
         Some(x) => x,
         None => m.lines[ml.line].close_op?,
     };
-    let c = ex.results.get(ml.enter_op).filter(|r| r.done)?;
-    let f = ex.results.get(fin).filter(|r| r.done)?;
+    let c = ex.results.get(ml.enter_op).filter(|r| r.done && !matches!(r.kind, ResKind::Panic(_)))?;
+    let f = ex.results.get(fin).filter(|r| r.done && !matches!(r.kind, ResKind::Panic(_)))?;
     let lo = f.t0.saturating_sub(c.t1);
     let hi = f.t1.saturating_sub(c.t0);
     Some((lo, hi, tol_for(hi)))
@@ -1368,7 +1368,8 @@ fn check_timing(
     cn: &mut Counters,
 ) {
     let m = &prog.model;
-    let res = |flat: usize| ex.results.get(flat).filter(|r| r.done).cloned();
+    // an operation that panicked has no brackets (the panic itself is reported under Cat::Panic)
+    let res = |flat: usize| ex.results.get(flat).filter(|r| r.done && !matches!(r.kind, ResKind::Panic(_))).cloned();
     let mut seen: HashSet<(Ent, u128, u64)> = HashSet::new();
     let mut interval: HashMap<Ent, (u64, u64)> = HashMap::new();
     for (r, ei) in pairs {
